@@ -336,7 +336,7 @@ func TestVerifC19(t *testing.T) {
 	rapid.Check(t, func(rt *rapid.T) {
 		c := genC19(rt)
 		v, nt, inc := runC19(c)
-		if inc {
+		if inc || (v != nil && transportNoise(v.Message)) {
 			col.Inconclusive()
 			return
 		}
